@@ -34,7 +34,10 @@ RULE = ("Hypothesis draws a prescription of 1..3 surfaces (plane / sphere / coni
         "trace_argtypes: rays with whole-number origins and direction (0, 0, +-1), as the raytrace docstring writes them - lists of "
         "Python ints, int64 / int32 arrays and float / int mixtures (histories must be of a floating dtype).  P and S are compared with "
         "copies after every call; the histories of a warm-up trace and of the first trace are compared with copies after the same "
-        "Surface objects have been traced again (reversed bundle, itself verified step by step); surf.P / R / typ unchanged by tracing.")
+        "Surface objects have been traced again (reversed bundle, itself verified step by step); surf.P / R / typ unchanged by tracing.  "
+        "Sphere / conic / off-axis conic surfaces are also built with another prescription (c/2, k - 0.5, other dx / dy), optionally evaluated "
+        "once (sag_normal), and then set to the prescription of the case through the public params dict their constructor stores "
+        "(surf.params['c'] = ..., 'k', 'dx', 'dy'; one, two or all entries): the surface traced is the conicoid params describes.")
 ASSUMPTIONS = [
     "a surface placed with (P, R) is the set {P + R^T (x, y, sag(x,y))}, i.e. local = R (X - P) as documented in "
     "transform_to_local_coords; R is whatever Surface(...) stores (checked orthonormal, det +1)",
@@ -56,6 +59,8 @@ ASSUMPTIONS = [
     "(typ an STYPE constant, P a float64 vector, R a matrix or None, n a callable) is a valid way to place it",
     "P and S 'of any float dtype' are also accepted as what np.asarray makes of lists; whole-number rays written as Python ints "
     "(the docstring's own example) are inside the domain, and their histories must hold real numbers",
+    "Surface.conic / sphere / off_axis_conic keep their prescription in the public dict surf.params, which their sag / normal closures read "
+    "at every evaluation: assigning entries of that dict re-prescribes the surface (the surface is the conicoid its params describe)",
     "an 'eval' surface does not bend the ray and does not change the medium: point on the ray and on the sag, S' = S",
     "float32 rays: the trace runs in float64 against float64 surfaces and the histories are stored in float32; every tolerance is "
     "2e-5 (positions relative to the scale of the system), origins 'at infinity' are not given in float32",
@@ -354,22 +359,50 @@ def build(ctx, spec, mdl):
     given = (_copy_arg(P), _copy_arg(R))
     kw = {} if omit_n else {'n': n}
     kind = mdl.kind
+    # the prescription the constructor is given.  With ctor['edit_params'] it is another, gentler, conicoid (smaller curvature, smaller
+    # conic constant, other off-axis distances) and the prescription of the case is then written into the public params dict the
+    # constructor stored on the surface - the way an optimiser or a tolerancing loop perturbs a design without rebuilding it
+    c0, k0, sx0, sy0 = mdl.c, mdl.k, mdl.sx, mdl.sy
+    edit = ct.get('edit_params') if kind in ('sphere', 'conic', 'offaxis') else None
+    edited = {}
+    if edit is not None:
+        if kind == 'sphere' or 'c' in edit or edit == 'all':
+            c0 = 0.5 * mdl.c if mdl.c != 0 else 0.003
+            edited['c'] = mdl.c
+        if kind != 'sphere' and ('k' in edit or edit == 'all'):
+            k0 = mdl.k - 0.5
+            edited['k'] = mdl.k
+        if kind == 'offaxis' and edit == 'all':
+            # (only one of dx / dy may be non-zero: the other one stays zero)
+            sx0 = 0.6 * mdl.sx + 0.011 * mdl.lim if mdl.sx != 0 else 0.0
+            sy0 = 0.6 * mdl.sy - 0.007 * mdl.lim if mdl.sy != 0 else 0.0
+            edited['dx'], edited['dy'] = mdl.sx, mdl.sy
     if kind == 'plane':
         s = ctx.call(Surface.plane, typ, P, R=R, **kw)
     elif kind == 'sphere':
-        s = ctx.call(Surface.sphere, mdl.c, typ, P, n, R=R) if not ct.get('kw', False) else ctx.call(Surface.sphere, c=mdl.c, typ=typ, P=P, n=n, R=R)
+        s = ctx.call(Surface.sphere, c0, typ, P, n, R=R) if not ct.get('kw', False) else ctx.call(Surface.sphere, c=c0, typ=typ, P=P, n=n, R=R)
     elif kind == 'conic':
-        s = ctx.call(Surface.conic, mdl.c, mdl.k, typ, P, R=R, **kw) if not ct.get('kw', False) else ctx.call(Surface.conic, c=mdl.c, k=mdl.k, typ=typ, P=P, R=R, **kw)
+        s = ctx.call(Surface.conic, c0, k0, typ, P, R=R, **kw) if not ct.get('kw', False) else ctx.call(Surface.conic, c=c0, k=k0, typ=typ, P=P, R=R, **kw)
     elif kind == 'offaxis':
         # dy is the positional argument, dx the optional one; one of them is zero
-        if mdl.sx == 0 and not ct.get('kw', False):
-            s = ctx.call(Surface.off_axis_conic, mdl.c, mdl.k, typ, P, mdl.sy, R=R, **kw)
+        if sx0 == 0 and not ct.get('kw', False):
+            s = ctx.call(Surface.off_axis_conic, c0, k0, typ, P, sy0, R=R, **kw)
         else:
-            s = ctx.call(Surface.off_axis_conic, mdl.c, mdl.k, typ, P, dy=mdl.sy, dx=mdl.sx, R=R, **kw)
+            s = ctx.call(Surface.off_axis_conic, c0, k0, typ, P, dy=sy0, dx=sx0, R=R, **kw)
     else:
         mdl.ffp = q_ffp(mdl)
         s = ctx.call(Surface, typ, P, n, mdl.ffp, R=R)
     ctx.require(_same_arg(given[0], P) and _same_arg(given[1], R), 'surface:argument-modified', 'Surface constructor changed its P / R argument: %r -> %r' % (given, (P, R)))
+    if edited:
+        want = {'sphere': {'c': c0, 'k': 0}, 'conic': {'c': c0, 'k': k0}, 'offaxis': {'c': c0, 'k': k0, 'dx': sx0, 'dy': sy0}}[kind]
+        ctx.require(isinstance(s.params, dict) and all(key in s.params and s.params[key] == v for key, v in want.items()), 'surface:params',
+                    'Surface.%s stored params=%r for the prescription %r' % (kind, s.params, want))
+        if ct.get('eval_first', False):
+            # the surface is used with the prescription it was built with before that is edited (nothing may be remembered)
+            q = 0.05 * mdl.lim * np.array([0.0, 1.0, -0.5, 0.3])
+            ctx.call(s.sag_normal, q, q[::-1].copy())
+        for name, v in edited.items():
+            s.params[name] = v
     if reassign:
         # a Surface is, for raytrace(), the attributes typ / P / R / n it documents: point the object built elsewhere at the
         # position, tilt, type and index of the case through them
@@ -651,6 +684,12 @@ def check_trace(case, ctx):
     for j, (sf, (P_, R_, t_)) in enumerate(zip(surfs, state)):
         same = np.array_equal(np.asarray(sf.P), P_) and ((sf.R is None) == (R_ is None)) and (R_ is None or np.array_equal(np.asarray(sf.R), R_)) and sf.typ == t_
         ctx.require(same, 'surface:modified-by-trace', 'surface %d: P / R / typ changed while tracing (P %r -> %r)' % (j, P_.tolist(), np.asarray(sf.P).tolist()))
+    for j, (sf, m, sp) in enumerate(zip(surfs, mdls, specs)):
+        if (sp.get('ctor') or {}).get('edit_params') is not None and m.kind in ('sphere', 'conic', 'offaxis'):
+            want = {'c': m.c, 'k': m.k}
+            if m.kind == 'offaxis':
+                want.update(dx=m.sx, dy=m.sy)
+            ctx.require(all(sf.params.get(key) == v for key, v in want.items()), 'surface:modified-by-trace', 'surface %d: params %r changed to %r while tracing' % (j, want, sf.params))
     ctx.nt(nontrivial)
 
 
@@ -700,6 +739,11 @@ def _fmt(v):
 def check_step(ctx, mdl, typ, n_in, n_out, P0, S0, P1, S1, j, spec, onaxis, tol=None):
     tol = tol or Tol()
     where = 'surface %d (%s %s c=%g k=%g off=(%g,%g) n=%g->%g)' % (j, mdl.kind, typ, mdl.c, mdl.k, mdl.sx, mdl.sy, n_in, n_out)
+    esuf = ''
+    if (spec.get('ctor') or {}).get('edit_params') is not None and mdl.kind in ('sphere', 'conic', 'offaxis'):
+        esuf = ':params-edited'
+        where += ' [prescription set through surf.params (%s) after construction with another one%s]' % (
+            spec['ctor']['edit_params'], ', evaluated once before' if spec['ctor'].get('eval_first') else '')
     L = max(1.0, float(np.max(np.abs(P0))), tol.gscale)
     fin = np.isfinite(P1).all(axis=1) & np.isfinite(S1).all(axis=1)
     if not fin.all():
@@ -721,7 +765,7 @@ def check_step(ctx, mdl, typ, n_in, n_out, P0, S0, P1, S1, j, spec, onaxis, tol=
     e = np.where(np.isfinite(e), e, np.inf)
     i = int(np.argmax(e))
     Ls = max(1.0, float(np.max(np.abs(P1))), tol.gscale)      # scale of the surface, whatever the distance of the ray origin
-    ctx.require(e[i] <= tol.pos * Ls, 'intersect:off-surface',
+    ctx.require(e[i] <= tol.pos * Ls, 'intersect:off-surface' + esuf,
                 '%s: intersection %s has z - sag = %.3g (tol %.3g) for ray P=%s S=%s' % (where, _fmt(P1[i]), e[i], tol.pos * Ls, _fmt(P0[i]), _fmt(S0[i])))
     if typ == 'eval':
         # a surface that does not bend rays: the direction is the incident one
@@ -740,7 +784,7 @@ def check_step(ctx, mdl, typ, n_in, n_out, P0, S0, P1, S1, j, spec, onaxis, tol=
         want = S0 - 2 * ci[:, None] * nrm
         err = np.abs(S1 - want).max(axis=1)
         i = int(np.argmax(err))
-        ctx.require(err[i] <= lawtol, 'reflect:law' + qsuf,
+        ctx.require(err[i] <= lawtol, 'reflect:law' + qsuf + esuf,
                     '%s: S\'=%s, mirror image of S=%s about n=%s is %s (err %.3g)' % (where, _fmt(S1[i]), _fmt(S0[i]), _fmt(nrm[i]), _fmt(want[i]), err[i]))
         return
     # refraction: far side first (orientation of the normal), then unit length, then vector Snell law
@@ -761,7 +805,7 @@ def check_step(ctx, mdl, typ, n_in, n_out, P0, S0, P1, S1, j, spec, onaxis, tol=
     tout = S1u - dot(S1u, nrm)[:, None] * nrm
     err = np.abs(n_in * tin - n_out * tout).max(axis=1)
     i = int(np.argmax(err))
-    ctx.require(err[i] <= lawtol * max(n_in, n_out), 'refract:snell' + qsuf,
+    ctx.require(err[i] <= lawtol * max(n_in, n_out), 'refract:snell' + qsuf + esuf,
                 '%s: n sin i = %.12g, n\' sin i\' = %.12g (tangential mismatch %.3g) for S=%s S\'=%s n=%s' % (
                     where, n_in * np.linalg.norm(tin[i]), n_out * np.linalg.norm(tout[i]), err[i], _fmt(S0[i]), _fmt(S1[i]), _fmt(nrm[i])))
 
@@ -805,7 +849,9 @@ def ctor_s():
         'R': st.sampled_from(['tuple', 'tuple', 'list', 'matrix']),
         'typ': st.sampled_from(['short', 'short', 'long', 'upper', 'int']),
         'n': st.sampled_from(['none', 'none', 'omit', 'callable']),
-        'kw': st.booleans(), 'reassign': st.sampled_from([False, False, False, True])})
+        'kw': st.booleans(), 'reassign': st.sampled_from([False, False, False, True]),
+        # sphere / conic / off-axis conic: built with another prescription, then set to the one of the case through surf.params
+        'edit_params': st.sampled_from([None, None, None, None, 'c', 'k', 'ck', 'all']), 'eval_first': st.booleans()})
 
 
 def _fit_P(s):
